@@ -248,9 +248,21 @@ Definition kw_free (c : ident) : Prop :=
   is_scalar_kind c = false /\ ident_eqb c kw_repeated = false /\ ident_eqb c kw_optional = false
   /\ ident_eqb c kw_option = false.
 
-(* the referenced type is in the table under its (package, path) and under no other split *)
+(* a full name stands for one (package, path) entry only *)
+Definition flat_unique (x : xsymtab) : Prop :=
+  forall e1 e2, In e1 (x_types x) -> In e2 (x_types x) -> flat_name e1 = flat_name e2 -> e1 = e2.
+
+Lemma lookup_unique x e : flat_unique x -> In e (x_types x) -> lookup_type x (flat_name e) = Some e.
+Proof.
+  intros Hu Hin. unfold lookup_type.
+  destruct (find (fun e0 => qname_eqb (flat_name e0) (flat_name e)) (x_types x)) as [e'|] eqn:F.
+  - apply find_some in F as [Hin' E]. apply qname_eqb_eq in E. f_equal. apply Hu; assumption.
+  - exfalso. apply (find_none _ _ F e) in Hin. rewrite qname_eqb_refl in Hin. discriminate.
+Qed.
+
+(* the referenced type is in the table under its (package, path) *)
 Definition wf_tref (x : xsymtab) (pkg rp path : qname) : Prop :=
-  path <> [] /\ wf_target (to_symtab x) pkg rp path /\ lookup_type x (rp ++ path) = Some (rp, path)
+  path <> [] /\ wf_target (to_symtab x) pkg rp path /\ In (rp, path) (x_types x)
   /\ Forall kw_free (rp ++ path).
 
 Definition wf_dvt (x : xsymtab) (pkg : qname) (t : dvt) : Prop :=
@@ -262,19 +274,19 @@ Definition wf_dtype (x : xsymtab) (pkg : qname) (fname : ident) (t : dtype) : Pr
   | DMapT k entry v => is_scalar_kind k = true /\ entry = map_entry_name fname /\ wf_dvt x pkg v
   end.
 
-Lemma interp_ref_lay x st pkg ctx rp path : same_tab st (to_symtab x) -> wf_tref x pkg rp path ->
+Lemma interp_ref_lay x st pkg ctx rp path : same_tab st (to_symtab x) -> flat_unique x -> wf_tref x pkg rp path ->
   interp_ref x pkg ctx (context_ref_name_safe st pkg ctx rp path) = Some (rp, path).
 Proof.
-  intros Hs (Hne & Ht & Hl & _). unfold interp_ref. rewrite (crn_safe_same st _ pkg ctx rp path Hs).
-  rewrite (scope_lemma_full _ pkg ctx rp path Hne Ht). exact Hl.
+  intros Hs Hu (Hne & Ht & Hl & _). unfold interp_ref. rewrite (crn_safe_same st _ pkg ctx rp path Hs).
+  rewrite (scope_lemma_full _ pkg ctx rp path Hne Ht). exact (lookup_unique x (rp, path) Hu Hl).
 Qed.
 
-Lemma interp_vt_lay x st pkg ctx t : same_tab st (to_symtab x) -> wf_dvt x pkg t ->
+Lemma interp_vt_lay x st pkg ctx t : same_tab st (to_symtab x) -> flat_unique x -> wf_dvt x pkg t ->
   interp_vt x pkg ctx (lay_vt st pkg ctx t) = Some t.
 Proof.
-  intros Hs Hw. destruct t as [k|rp path].
+  intros Hs Hu Hw. destruct t as [k|rp path].
   - cbn [wf_dvt] in Hw. cbn [lay_vt]. unfold interp_vt, scalar_pn. rewrite Hw. reflexivity.
-  - cbn [wf_dvt lay_vt] in *. pose proof (interp_ref_lay x st pkg ctx rp path Hs Hw) as Hr.
+  - cbn [wf_dvt lay_vt] in *. pose proof (interp_ref_lay x st pkg ctx rp path Hs Hu Hw) as Hr.
     destruct Hw as (Hne & _ & _ & Hk). pose proof (safe_components st pkg ctx rp path Hne) as Hc.
     unfold interp_ref in Hr. unfold interp_vt.
     destruct (context_ref_name_safe st pkg ctx rp path) as [abs nm] eqn:E. cbn [pn_name] in Hc.
@@ -288,13 +300,13 @@ Proof.
     destruct Hf as (Hsk & _). rewrite Hsk. exact G.
 Qed.
 
-Lemma interp_type_lay x st pkg ctx fname t : same_tab st (to_symtab x) -> wf_dtype x pkg fname t ->
+Lemma interp_type_lay x st pkg ctx fname t : same_tab st (to_symtab x) -> flat_unique x -> wf_dtype x pkg fname t ->
   interp_type x pkg ctx fname (lay_type st pkg ctx t) = Some t.
 Proof.
-  intros Hs Hw. destruct t as [v|k entry v]; cbn [wf_dtype lay_type interp_type] in *.
-  - rewrite (interp_vt_lay x st pkg ctx v Hs Hw). reflexivity.
+  intros Hs Hu Hw. destruct t as [v|k entry v]; cbn [wf_dtype lay_type interp_type] in *.
+  - rewrite (interp_vt_lay x st pkg ctx v Hs Hu Hw). reflexivity.
   - destruct Hw as (Hk & -> & Hv). unfold scalar_pn. rewrite Hk.
-    rewrite (interp_vt_lay x st pkg _ v Hs Hv). reflexivity.
+    rewrite (interp_vt_lay x st pkg _ v Hs Hu Hv). reflexivity.
 Qed.
 
 (* the laid-out type is well-formed for the parser *)
@@ -339,12 +351,12 @@ Definition canon_field (i : N) (f : dfield) : dfield :=
 Definition wf_dfield (x : xsymtab) (pkg : qname) (f : dfield) : Prop :=
   wf_dtype x pkg (f_name f) (f_type f) /\ Forall wf_dopt (f_opts f).
 
-Lemma interp_field_lay x st pkg ctx is_ext i f : same_tab st (to_symtab x) -> wf_dfield x pkg f ->
+Lemma interp_field_lay x st pkg ctx is_ext i f : same_tab st (to_symtab x) -> flat_unique x -> wf_dfield x pkg f ->
   (is_ext = true -> f_json f = default_json (f_name f)) ->
   interp_field x pkg ctx i (lay_field st pkg ctx is_ext f) = Some (canon_field i f).
 Proof.
-  intros Hs [Ht Ho] Hx. unfold interp_field, lay_field. cbn [sf_cm sf_label sf_type sf_name sf_num sf_opts].
-  rewrite (interp_type_lay x st pkg ctx _ _ Hs Ht). rewrite (field_json_lay is_ext _ _ _ Hx).
+  intros Hs Hu [Ht Ho] Hx. unfold interp_field, lay_field. cbn [sf_cm sf_label sf_type sf_name sf_num sf_opts].
+  rewrite (interp_type_lay x st pkg ctx _ _ Hs Hu Ht). rewrite (field_json_lay is_ext _ _ _ Hx).
   rewrite filter_notjson_field. rewrite (interp_lay_fopts _ Ho). reflexivity.
 Qed.
 
@@ -399,21 +411,21 @@ Definition canon_fields (fs : list dfield) : list dfield := number_from canon_fi
 Lemma lay_fields_eq st pkg ctx fs : lay_fields st pkg ctx fs = map (lay_field st pkg ctx false) (sorted_by fkey fs).
 Proof. unfold lay_fields. apply (sort_project_sorted_by fkey). Qed.
 
-Lemma interp_fields_map x st pkg ctx is_ext : same_tab st (to_symtab x) -> forall l i,
+Lemma interp_fields_map x st pkg ctx is_ext : same_tab st (to_symtab x) -> flat_unique x -> forall l i,
   Forall (wf_dfield x pkg) l -> (is_ext = true -> Forall (fun f => f_json f = default_json (f_name f)) l) ->
   interp_fields x pkg ctx i (map (lay_field st pkg ctx is_ext) l) = Some (number_from canon_field i l).
 Proof.
-  intros Hs. induction l as [|f r IH]; intros i Hw Hx; [reflexivity|].
+  intros Hs Hu. induction l as [|f r IH]; intros i Hw Hx; [reflexivity|].
   inversion Hw as [|? ? Hf Hr]; subst. cbn [map interp_fields number_from].
-  rewrite (interp_field_lay x st pkg ctx is_ext i f Hs Hf).
+  rewrite (interp_field_lay x st pkg ctx is_ext i f Hs Hu Hf).
   - rewrite IH; [reflexivity|exact Hr|]. intro E. specialize (Hx E). inversion Hx; assumption.
   - intro E. specialize (Hx E). inversion Hx; assumption.
 Qed.
 
-Lemma interp_lay_fields x st pkg ctx fs : same_tab st (to_symtab x) -> Forall (wf_dfield x pkg) fs ->
+Lemma interp_lay_fields x st pkg ctx fs : same_tab st (to_symtab x) -> flat_unique x -> Forall (wf_dfield x pkg) fs ->
   interp_fields x pkg ctx 1 (lay_fields st pkg ctx fs) = Some (canon_fields fs).
 Proof.
-  intros Hs Hw. rewrite lay_fields_eq. apply (interp_fields_map x st pkg ctx false Hs).
+  intros Hs Hu Hw. rewrite lay_fields_eq. apply (interp_fields_map x st pkg ctx false Hs Hu).
   - apply Forall_isort. exact Hw.
   - discriminate.
 Qed.
@@ -465,12 +477,12 @@ Definition wf_dmethod (x : xsymtab) (pkg : qname) (m : dmethod) : Prop :=
   wf_tref x pkg (fst (m_in m)) (snd (m_in m)) /\ wf_tref x pkg (fst (m_out m)) (snd (m_out m))
   /\ Forall wf_dopt (m_opts m).
 
-Lemma interp_methods_map x st pkg svc : same_tab st (to_symtab x) -> forall l i, Forall (wf_dmethod x pkg) l ->
+Lemma interp_methods_map x st pkg svc : same_tab st (to_symtab x) -> flat_unique x -> forall l i, Forall (wf_dmethod x pkg) l ->
   interp_methods x pkg svc i (map (lay_method st pkg svc) l) = Some (number_from canon_method i l).
 Proof.
-  intro Hs. induction l as [|m r IH]; intros i Hw; [reflexivity|]. inversion Hw as [|? ? (Hi & Ho & Hopts) Hr]; subst.
+  intros Hs Hu. induction l as [|m r IH]; intros i Hw; [reflexivity|]. inversion Hw as [|? ? (Hi & Ho & Hopts) Hr]; subst.
   cbn [map interp_methods number_from]. unfold interp_method at 1. cbn [lay_method sm_in sm_out sm_opts sm_cm sm_name].
-  rewrite (interp_ref_lay x st pkg [svc] _ _ Hs Hi). rewrite (interp_ref_lay x st pkg [svc] _ _ Hs Ho).
+  rewrite (interp_ref_lay x st pkg [svc] _ _ Hs Hu Hi). rewrite (interp_ref_lay x st pkg [svc] _ _ Hs Hu Ho).
   rewrite (interp_lay_sopts _ Hopts). rewrite (IH _ Hr). unfold canon_method.
   destruct (m_in m), (m_out m). reflexivity.
 Qed.
@@ -610,16 +622,16 @@ Proof.
   rewrite (H i e (or_introl eq_refl)). rewrite IH; [reflexivity|]. intros j y Hy. apply H. right; exact Hy.
 Qed.
 
-Theorem interp_lay_elem x st pkg : same_tab st (to_symtab x) ->
+Theorem interp_lay_elem x st pkg : same_tab st (to_symtab x) -> flat_unique x ->
   forall n e ctx i, (ddepth e <= n)%nat -> wf_delem x pkg e ->
   interp_elem x pkg ctx i (lay_elem st pkg ctx e) = Some (set_key i (canon_elem e)).
 Proof.
-  intro Hs. induction n as [|n IH]; intros e ctx i Hn Hw; [pose proof (ddepth_pos e); lia|].
+  intros Hs Hu. induction n as [|n IH]; intros e ctx i Hn Hw; [pose proof (ddepth_pos e); lia|].
   destruct e as [f|k c nm o fs|k c nm o body|k c nm o vs|k c nm o ms].
-  - cbn [lay_elem interp_elem canon_elem set_key]. rewrite (interp_field_lay x st pkg ctx false i f Hs Hw) by discriminate.
+  - cbn [lay_elem interp_elem canon_elem set_key]. rewrite (interp_field_lay x st pkg ctx false i f Hs Hu Hw) by discriminate.
     reflexivity.
   - destruct Hw as [Ho Hf]. cbn [lay_elem interp_elem canon_elem set_key].
-    rewrite (interp_lay_sopts _ Ho). rewrite (interp_lay_fields x st pkg ctx fs Hs Hf). reflexivity.
+    rewrite (interp_lay_sopts _ Ho). rewrite (interp_lay_fields x st pkg ctx fs Hs Hu Hf). reflexivity.
   - apply wf_delem_msg in Hw. destruct Hw as [Ho Hb].
     rewrite lay_elem_msg, interp_elem_msg, canon_elem_msg. cbn [set_key].
     rewrite (interp_lay_sopts _ Ho). rewrite lay_body_eq.
@@ -632,15 +644,15 @@ Proof.
     rewrite interp_values_map by (apply Forall_isort; exact Hv). reflexivity.
   - destruct Hw as [Ho Hm]. cbn [lay_elem interp_elem canon_elem set_key].
     rewrite (interp_lay_sopts _ Ho). rewrite lay_methods_eq.
-    rewrite (interp_methods_map x st pkg nm Hs) by (apply Forall_isort; exact Hm). reflexivity.
+    rewrite (interp_methods_map x st pkg nm Hs Hu) by (apply Forall_isort; exact Hm). reflexivity.
 Qed.
 
-Lemma interp_lay_body x st pkg ctx body : same_tab st (to_symtab x) -> wf_delems x pkg body ->
+Lemma interp_lay_body x st pkg ctx body : same_tab st (to_symtab x) -> flat_unique x -> wf_delems x pkg body ->
   interp_elems x pkg ctx 1 (lay_body st pkg ctx body) = Some (canon_body body).
 Proof.
-  intros Hs Hw. rewrite lay_body_eq. unfold canon_body. apply interp_elems_map.
+  intros Hs Hu Hw. rewrite lay_body_eq. unfold canon_body. apply interp_elems_map.
   intros j e He. apply sorted_by_In in He.
-  apply (interp_lay_elem x st pkg Hs (ddepth e)); [lia|exact (wf_delems_In x pkg body Hw e He)].
+  apply (interp_lay_elem x st pkg Hs Hu (ddepth e)); [lia|exact (wf_delems_In x pkg body Hw e He)].
 Qed.
 
 (* ---- laying out the canonical form gives the same syntactic element *)
